@@ -471,6 +471,21 @@ func runC12(ctx *core.Ctx, pool *par.Pool) {
 		var cyc []QShapesTask
 		_ = cyc
 	}
+	// a full tiny file after a reopen: the tail page is assigned already, so a flush may have nothing to
+	// allocate and still fail; with and without an unfinished event behind the flushed range (history that exposed D23)
+	{
+		c := QCfgSpec{File: "P17", Buffer: 5}
+		seedQ := []Q{{K: queuedrv.QWrite, A: 19600}, {K: queuedrv.QFill, A: 11600}, {K: queuedrv.QReopen}}
+		alpha := append(fillAlphabet(c, true), Q{K: queuedrv.QWrite, A: 100}, Q{K: queuedrv.QWritePart, A: 2500, B: queuedrv.ChunkPage}, Q{K: queuedrv.QWritePart, A: 9000, B: queuedrv.ChunkPage})
+		d := 3
+		if !quick {
+			d = 5
+		}
+		st := qBFSfrom(ctx, pool, c, seedQ, alpha, d, true, false, ownsC12, nil)
+		total.States += st.States
+		total.Transitions += st.Transitions
+		ctx.Set("depth_full-after-reopen_"+c.String(), st.Depth)
+	}
 	// fill-to-error / drain cycles as long scripted paths
 	cycles := 0
 	for _, c := range cfgs {
